@@ -15,6 +15,7 @@ EXPLANATION = (
     "subtract pair is selected exactly by `not self._absolute and self.invert`; the candidate is compared with "
     "self.end before it is yielded (inclusive end, never beyond); __iter__ is range('days'); __contains__ is "
     "start <= item <= end. NOT decided: finiteness for amount <= 0 (outside the quantifier)."
+    ' Also: the month-end clamp of helpers.add_duration every element goes through, the DAYS_PER_MONTHS rows and the is_leap rule in both back ends.'
 )
 
 TEMPLATE = [
